@@ -429,6 +429,11 @@ func (ex *Exec) evalField(base TV, sel string, env *CEnv, e Expr) TV {
 				t = x.Dyn
 				continue
 			}
+			// an interface value standing for a pointer receiver (dispatch): its identity is the object
+			if pt, ok := t.(*types.Pointer); ok && x.Sym != nil && x.Sym.Sort == SRef {
+				v = &Ptr{Ref: x.Sym, Root: pt.Elem()}
+				continue
+			}
 		}
 		break
 	}
